@@ -86,6 +86,8 @@ type Net struct {
 	LogCrossings bool
 	// Panics collects every recovered worker panic.
 	Panics []string
+	// SendErrs lists the frames a link writer refused (it drops them, as the real writer does).
+	SendErrs []string
 	seq    int
 }
 
@@ -194,13 +196,16 @@ func (l *VLink) FlowControlIndicator() frame.FlowControlFlag {
 }
 
 func (l *VLink) send(f frame.Frame, prio bool) error {
-	// Like the real link writer: serialise, then release the frame.
-	data, err := f.FrameDataWithMargins(0, 0)
+	// Like the real (encrypting) link writer: serialise with room for the link
+	// header and MAC, then release the frame. A frame the writer cannot
+	// serialise is dropped there with an error, here as well.
+	data, err := f.FrameDataWithMargins(peering.FrameOffset, peering.FrameOverhead)
 	if err != nil {
+		l.Owner.Net.SendErrs = append(l.Owner.Net.SendErrs, fmt.Sprintf("%s -> %s: type %d, %d bytes: %v", l.Owner.Name, l.Remote.Name, f.MessageType(), len(f.MessageData())+len(f.AppendixData()), err))
 		f.ReturnToPool()
 		return err
 	}
-	cp := append([]byte(nil), data...)
+	cp := append([]byte(nil), data[peering.FrameOffset:len(data)-peering.FrameOverhead]...)
 	f.ReturnToPool()
 	vn := l.Owner.Net
 	vn.seq++
